@@ -13,8 +13,8 @@ Definition g_def : node :=
      (NCons (N KArgs (NCons (N KGen NNil) (NCons (N KGen (NCons (N (KArg 3) NNil) NNil)) NNil)))
      (NCons (N KGen NNil) NNil)))).
 Definition f_body : node := N KGen (NCons g_def NNil).
-Definition leaky : quirks := mkq true true true.
-Definition cpython : quirks := mkq false false false.
+Definition leaky : quirks := mkq true true true true.
+Definition cpython : quirks := mkq false false false false.
 
 Theorem activity_param_leak_refuted :
   exists (args body : node) (n : name),
